@@ -67,7 +67,7 @@ func (H) Generate(prop, tier string, seed uint64) *simkit.Plan {
 		n = r.Range(40, 150)
 	}
 	wrap := r.Chance(0.15) // push one (name,peer) past the window capacity
-	var expiries []int // virtual instants (ms) at which something expires
+	var expiries []int     // virtual instants (ms) at which something expires
 	vt := 0
 	for i := 0; i < n; i++ {
 		st := Step{}
@@ -551,13 +551,13 @@ func (w *world) judgeAlerts(n *node) {
 		name, p := parts[0], peer.ID(parts[1])
 		h := n.hist[k]
 		type episode struct {
-			idx     int
-			from    time.Time
-			to      time.Time
-			exp     time.Time
-			samples int
+			idx             int
+			from            time.Time
+			to              time.Time
+			exp             time.Time
+			samples         int
 			closedByRemoval bool
-			stale   []time.Time
+			stale           []time.Time
 		}
 		var eps []*episode
 		samples := 0
@@ -661,7 +661,9 @@ func (w *world) judgeAlerts(n *node) {
 	}
 }
 
-func (w *world) ts(t time.Time) string { return fmt.Sprintf("%dms", t.Sub(w.runStart())/time.Millisecond) }
+func (w *world) ts(t time.Time) string {
+	return fmt.Sprintf("%dms", t.Sub(w.runStart())/time.Millisecond)
+}
 
 var epoch = time.Date(2000, 1, 1, 0, 0, 0, 0, time.UTC)
 
